@@ -76,10 +76,10 @@ try:
 finally:
     tag = hashlib.sha1(wt.encode()).hexdigest()[:8]
     for d in os.listdir("/verif/target") if os.path.isdir("/verif/target") else []:
-        if d.endswith("-" + tag) or d.endswith("-" + tag + "-native"):
+        if ("-" + tag) in d:
             shutil.rmtree(os.path.join("/verif/target", d), ignore_errors=True)
     for d in os.listdir("/verif/build") if os.path.isdir("/verif/build") else []:
-        if d.endswith("-" + tag):
+        if ("-" + tag) in d:
             shutil.rmtree(os.path.join("/verif/build", d), ignore_errors=True)
     subprocess.call(["git", "-C", "/repo", "worktree", "remove", "--force", wt])
 valid = res.get("demo_without_change_rc") == 0 and res.get("demo_with_change_rc", 0) != 0 and not res.get("suite_with_change", {}).get("failed") and "error" not in res
